@@ -6,3 +6,5 @@ import AiutiVerif.Parse.Props
 import AiutiVerif.Parse.Drive
 import AiutiVerif.Gather.Props
 import AiutiVerif.Gather.Drive
+import AiutiVerif.Batcher.Model
+import AiutiVerif.Batcher.Drive
